@@ -39,6 +39,21 @@ TCompact(c) == LET d == IF c.inb # <<>> THEN TDuplex(c) ELSE c IN [d EXCEPT !.ou
 \* everything the challenger state depends on (absorbed or buffered)
 TAll(c) == UNION ({c.st[i] : i \in 1..WIDTH} \cup {c.inb[i] : i \in 1..Len(c.inb)})
 
+\* ---- the same abstraction in compressed form -----------------------------------
+\* After every permutation all lanes carry the same set, and the capacity lanes are never
+\* overwritten (RATE < WIDTH), so the lane-wise state is always uniform: [u, inb, nout] with
+\* st[i] = u for all i, outb = nout copies of u.  MCChallenger!UniformInv checks this equivalence
+\* on every op sequence; Transcript / StarkTranscript run on the compressed form (12 x smaller states).
+UInit == [u |-> {}, inb |-> <<>>, nout |-> 0]
+UDuplex(c) == [u |-> c.u \cup UNION {c.inb[i] : i \in 1..Len(c.inb)}, inb |-> <<>>, nout |-> RATE]
+UObserve(c, taint) ==
+  LET c1 == [c EXCEPT !.nout = 0, !.inb = Append(c.inb, taint)]
+  IN IF Len(c1.inb) = RATE THEN UDuplex(c1) ELSE c1
+UGet(c) == LET d == IF c.inb # <<>> \/ c.nout = 0 THEN UDuplex(c) ELSE c
+           IN <<[d EXCEPT !.nout = d.nout - 1], d.u>>
+UCompact(c) == LET d == IF c.inb # <<>> THEN UDuplex(c) ELSE c IN [d EXCEPT !.nout = 0]
+UAll(c) == c.u \cup UNION {c.inb[i] : i \in 1..Len(c.inb)}
+
 \* ---- programs ------------------------------------------------------------
 Obs(class, n) == [k |-> "O", class |-> class, n |-> n, own |-> TRUE, extra |-> {}, full |-> FALSE]
 ObsDerived(class, n, own, extra, full) ==
@@ -53,6 +68,6 @@ Compress(prog) == IF prog = <<>> THEN <<>>
 
 \* one element of step s, element index i, on challenger c: <<c', taint of a squeezed element or {}>>
 ElemTaint(s, i, c) == (IF s.own THEN {<<s.class, i>>} ELSE {}) \cup s.extra
-                      \cup (IF s.full THEN TAll(c) ELSE {})
-StepElem(s, i, c) == IF s.k = "O" THEN <<TObserve(c, ElemTaint(s, i, c)), {}>> ELSE TGet(c)
+                      \cup (IF s.full THEN UAll(c) ELSE {})
+StepElem(s, i, c) == IF s.k = "O" THEN <<UObserve(c, ElemTaint(s, i, c)), {}>> ELSE UGet(c)
 =============================================================================
